@@ -10,6 +10,8 @@ FAM_ITEM = """impl A {
     pub fn add(&mut self, n: i8, m: u8) -> i8 { n }
     pub fn get(&self) -> i8 { 0 }
     pub fn io(&self, n: i8, s: String) -> i8 { n }
+    pub fn peek(&self, mut tag: String, (mut a, b): (u8, u8)) -> u8 { 0 }
+    pub fn visit(&self, f: Box<dyn Fn(&mut String) + Send>, r: &'static mut u8) {}
     pub fn stat(x: u8) -> u8 { x }
     pub fn cust(actor: &%s, x: u8) -> u8 { x }
     %s
